@@ -24,6 +24,7 @@ pub struct TStats {
 	pub key_reget: u64,
 	pub panics_injected: u64,
 	pub nonacq_calls: u64,
+	pub in_unwind: u64,
 }
 
 pub struct Tc<'a> {
@@ -181,7 +182,14 @@ impl<'a> Tc<'a> {
 	/// run one acquisition of `acq`
 	pub fn run_acq(&mut self, acq: &Acq) {
 		let t = acq.target.clone();
-		self.with_lk(&t, |tc, lk, exp| tc.do_acq(lk, acq, exp));
+		if acq.unwind {
+			// the whole call - acquisition, critical section, release - is made from a destructor
+			// that runs while the thread unwinds from an unrelated panic
+			self.stats.in_unwind += 1;
+			in_unwind(|| self.with_lk(&t, |tc, lk, exp| tc.do_acq(lk, acq, exp)));
+		} else {
+			self.with_lk(&t, |tc, lk, exp| tc.do_acq(lk, acq, exp));
+		}
 	}
 
 	/// materialise `target` and hand it over as `&dyn Lk` together with the expected leaf ids
@@ -485,6 +493,13 @@ impl<'a> Tc<'a> {
 		for (i, (_, verdict)) in flat.iter().enumerate() {
 			w.pois_check(exp[i], *verdict, &acq_desc(acq));
 		}
+		// a hold that lives entirely inside an unwind: its guard is dropped while the thread is
+		// panicking, so the wrapper may (but need not) report poisoned from now on
+		if acq.unwind {
+			for id in exp {
+				w.pois_may(*id);
+			}
+		}
 		// While the hold is live the thread's key is inside the guard / lent to the call: asking
 		// for a key - even repeatedly - must not yield one (C03: a thread that can acquire holds
 		// nothing; C06).  A key obtained here is used at once on a held lock, which makes the
@@ -571,6 +586,9 @@ impl<'a> Tc<'a> {
 					_ => {}
 				}
 				w.pois_clear(id);
+				if acq.unwind {
+					w.pois_may(id);
+				}
 			}
 		}
 		if acq.panic {
@@ -626,8 +644,12 @@ impl<'a> Tc<'a> {
 		match acq.api {
 			Api::Guard | Api::GuardUnlock => {
 				w.begin_call(tid, Class::Acquire, label, lk.is_retry());
-				let mut held = lk.lock(key, acq.mode);
+				let held = lk.lock(key, acq.mode);
 				let ops = w.end_call(tid);
+				// guard+unlock: if the critical section panics the hold is still ended through
+				// the explicit unlock function, from a destructor during the unwind
+				let mut end = EndHold { held: Some(held), explicit: acq.api == Api::GuardUnlock };
+				let held = end.held.as_mut().unwrap();
 				self.outcomes.push(true);
 				self.last_ops = ops.clone();
 				self.check_holds_exactly(exp, acq.mode, &format!("after {}", desc()), "C04");
@@ -639,6 +661,7 @@ impl<'a> Tc<'a> {
 					let _ = self.nonacq("debug(guard)", || held.debug());
 				}
 				self.guard_section_and_release(&mut Some(held.as_mut()), acq, exp);
+				let held = end.held.take().unwrap();
 				self.release(held, acq);
 			}
 			Api::TryLoop => {
@@ -864,6 +887,55 @@ pub fn classify(e: Box<dyn std::any::Any + Send>) -> Unwound {
 		Unwound::Other(s.clone())
 	} else {
 		Unwound::Other("<non-string panic payload>".into())
+	}
+}
+
+/// Payload of the unrelated panic `in_unwind` unwinds with.
+struct UnwindCarrier;
+
+/// Run `f` inside a destructor that is executed because the thread is unwinding from an
+/// unrelated panic: `std::thread::panicking()` is true for the whole of `f`.  A panic raised by
+/// `f` itself is contained in the destructor (anything else would abort the process) and
+/// re-raised once the carrier panic has been caught.
+pub fn in_unwind<T>(f: impl FnOnce() -> T) -> T {
+	struct Runner<'o, F: FnOnce() -> T, T> {
+		f: Option<F>,
+		out: &'o mut Option<std::thread::Result<T>>,
+	}
+	impl<F: FnOnce() -> T, T> Drop for Runner<'_, F, T> {
+		fn drop(&mut self) {
+			assert!(std::thread::panicking());
+			let f = self.f.take().unwrap();
+			*self.out = Some(catch_unwind(AssertUnwindSafe(f)));
+		}
+	}
+	let mut out = None;
+	let carrier = catch_unwind(AssertUnwindSafe(|| {
+		let _runner = Runner { f: Some(f), out: &mut out };
+		resume_unwind(Box::new(UnwindCarrier));
+	}));
+	assert!(matches!(&carrier, Err(e) if e.is::<UnwindCarrier>()));
+	match out.expect("the destructor ran") {
+		Ok(t) => t,
+		Err(e) => resume_unwind(e),
+	}
+}
+
+/// A guard that is handed back through the explicit `Type::unlock(guard)` function even when the
+/// critical section unwinds: the destructor of an application object that owns the guard.
+struct EndHold<'h> {
+	held: Option<Box<dyn Held + 'h>>,
+	explicit: bool,
+}
+impl Drop for EndHold<'_> {
+	fn drop(&mut self) {
+		if let Some(h) = self.held.take() {
+			if self.explicit {
+				drop(h.unlock());
+			} else {
+				drop(h);
+			}
+		}
 	}
 }
 
